@@ -14,7 +14,7 @@ class Gen:
         self.rng, self.feats, self.h = rng, feats, G.History()
         self.live = {}            # name -> Table (committed)
         self.next_tid, self.next_id = 1, 1
-        self.classes = set()
+        self.classes = G.ClassSet(self.h)
         self.ever = {}            # name -> last Table shape seen under that name (for reads of dropped names)
 
     def new_shape(self, name):
@@ -162,7 +162,7 @@ def gen_case(rng, feats):
             checks.append((before, after))
         before = after
     rust, coq = h.render()
-    return Case(rust, coq, "history", {"classes": sorted(g.classes), "checks": checks})
+    return Case(rust, coq, "history", dict(g.classes.meta(), checks=checks))
 
 
 def oracle(case, il):
@@ -173,7 +173,7 @@ def oracle(case, il):
             if a >= len(segs):
                 return "output truncated"
             if segs[b] != segs[a]:
-                return "a rolled-back session / reopen changed a table: read %d gave %s, read %d gave %s" % (b, segs[b][:160], a, segs[a][:160])
+                return ("a rolled-back session / reopen changed a table: read %d gave %s, read %d gave %s" % (b, segs[b][:160], a, segs[a][:160]), a)
     if "err:panic" in il or "hang" in il:
         return "a statement did not return a result or an error: " + il[:200]
     return None
